@@ -359,17 +359,11 @@ func C12State(s *Snap) []engine.Finding {
 			}
 			out = append(out, fd("C12", "unresolved-order-without-timeout-entry", disc, fmt.Sprintf("order %d (status %s, replica %d, timeout %d, created %d, duration %d) is not fully stored and no timeout entry at height >= %d names it", oid, statusName(o.Status), o.Replica, o.Timeout, o.CreatedAt, o.Duration, s.H)))
 		}
-		if o.Timeout > 0 && uint64(s.H) > o.CreatedAt+(saokeeper.MaxTries+2)*o.Timeout+1 && sched {
-			// still being retried after the give-up bound: only legitimate while replacements keep being found
-			retried := 0
-			for _, id := range o.Shards {
-				if sh, ok := s.Shards[id]; ok && sh.Status == ordertypes.ShardTimeout {
-					retried++
-				}
-			}
-			if retried == 0 {
-				out = append(out, fd("C12", "unresolved-beyond-give-up-bound", "", fmt.Sprintf("order %d created at %d with timeout %d is still unresolved at %d although no replacement was ever found", oid, o.CreatedAt, o.Timeout, s.H)))
-			}
+		// give-up bound: a check that finds no replacement after MaxTries intervals gives up; replacements are
+		// distinct from every provider already tried, so at most (#providers) checks can find one
+		bound := (saokeeper.MaxTries + uint64(len(s.Pledges)) + 2) * o.Timeout
+		if o.Timeout > 0 && sched && uint64(s.H-1) > o.CreatedAt+bound && uint64(s.H-1)+o.Timeout < o.CreatedAt+o.Duration {
+			out = append(out, fd("C12", "unresolved-beyond-give-up-bound", "", fmt.Sprintf("order %d created at %d with timeout %d is still unresolved at height %d (> created + (10 + %d providers + 2) intervals)", oid, o.CreatedAt, o.Timeout, s.H, len(s.Pledges))))
 		}
 	}
 	return out
